@@ -12,7 +12,7 @@ DECIDED = ("R10.1: in the public forced-boolean install root, every path that al
            "body returns the constant selected by the value), writes no other register and has no stack effect; R10.4: the stub fits its mapping; "
            "R10.5: on every returning path of the forced-boolean roots the entry patch decodes to a transfer to the stub (the decision of "
            "C01 R1.1 / C15 / C16 restricted to these roots: no call returns the value unless it gets to the stub); R10.6: entry patch and stub of these roots consist of branches, NOPs and "
-           "moves into caller-saved scratch registers only (C13 R13.1-R13.3 on these roots); R10.7: the stub stays mapped while the "
+           "moves into caller-saved scratch registers only (C13 R13.1-R13.3 on these roots); R10.8: the stub is written before the entry branches to it (C01 R1.8); R10.7: the stub stays mapped while the "
            "injector lives (who-may-release and restore-before-release, C12 R12.3/R12.4)")
 NOT_DECIDED = ("exactness of the string-parsing helper over all type-name strings (only the deny-listed affix shapes and the equality "
                "requirement are decided); that the CPU executes the stub as tabulated")
@@ -161,6 +161,11 @@ def run(ck, models, tier):
         # caller-saved scratch registers (and the result register, for the stub) - the decision of C13 R13.1-R13.3 on these roots
         k6 = patches.convention_obligations(ck, ("R10.6", "R10.6", "R10.6"), tm, lambda r: r.root in broots)
         ck.floor("R10.6", "forced-boolean-sequences-decoded", k6, 2 if tm.arch != "arm" else 3, tm.target)
+        # R10.8 "every call ... returns exactly the requested value" from the first moment: the stub is complete before the entry branches to
+        # it (C01 R1.8 on the forced-boolean roots) - a call arriving in between would run a zero-filled page
+        if tm.arch != "arm":
+            k8 = patches.order_obligations(ck, "R10.8", tm, "stub-written-before-entry", lambda p_: p_ in broots)
+            ck.floor("R10.8", "forced-boolean-paths-with-stub-and-entry", k8, 1, tm.target)
         # R10.7 "every call returns the requested value" for as long as the injector lives: the stub stays mapped - the release primitive is
         # applied to nothing but the allocator's own rejected result and, in the guard's destructor after the restore, the guard's mapping
         if tm.arch != "arm":
